@@ -1,3 +1,5 @@
 pub mod checks;
+pub mod family;
+pub mod model_ser;
 pub mod sx;
 pub use vbase::{engine, gens, refjson};
